@@ -40,7 +40,7 @@ Definition current : fixes := {|
   fx_subsdur := true;          (* /repo 860f338 *)
   fx_snr := true;              (* /repo bed0ae2 *)
   fx_traffic_idx := true;      (* /repo b801303 *)
-  fx_chunkdur := false;        (* not applied: ato_inf / ato >= segment duration still accepted in chunked mode *)
+  fx_chunkdur := true;         (* /repo 6ca1ef6 *)
   fx_chunk_cap := true;        (* /repo 1ce6842 *)
   fx_subs_startnr := true;     (* /repo eaa7039 *)
   fx_status_startnr := true;   (* /repo c58c8e1 *)
